@@ -258,7 +258,9 @@ Render(doc, i, C, fuel) ==
                 align == IF par = <<>> THEN "xMidYMid" ELSE par[1]
                 slice == Len(par) = 2 /\ par[2] = "slice"
                 mt == Mul(C.m, TfOf(at))
-                vx == IF vb = <<>> \/ vb = <<x, y, w, h>> THEN Translate(x, y)
+                \* without a viewBox the user space of the content starts at the viewport's corner;
+                \* with one, the viewBox is mapped onto the viewport (identity when they coincide)
+                vx == IF vb = <<>> THEN Translate(x, y)
                       ELSE ViewportXf(vb, <<x, y, w, h>>, align, slice)
                 clipU == IF ovf = "visible" THEN <<>>
                          ELSE << << [tag |-> "rect", g |-> <<x, y, w, h, -1, -1>>, m |-> C.m,
